@@ -101,6 +101,9 @@ def run(prop, part, tier, seed, cfg, findings, api):
                 bad = l
             if len(p[2]) >= 10:
                 nt += 1
+    mm = [l for l in r.stdout.split("\n") if l.startswith("MISMATCH")]
+    if mm and bad is None:
+        bad = "I # " + mm[0]
     if r.returncode != 0 and bad is None:
         bad = "I # crashed: " + r.stderr[-1500:].replace("\n", " | ")
     if bad:
